@@ -199,17 +199,31 @@ Proof.
 Qed.
 
 (* ------------------------------------------------------------------ bitmaps *)
-Lemma bitmap_cls_le bs ps op a b c : 50 <= op <= 58 -> 0 < ps -> bs < W64 -> a < W64 ->
-  bitmap_cls bs ps op a b c <= 1.
+Lemma bitmap_ops_cls_le bm op a b c : Bitmap.bm_inv bm -> 50 <= op <= 58 -> a < W64 ->
+  bitmap_ops_cls bm op a b c <= 1.
 Proof.
-  intros Hop Hps Hbs Ha. pose proof (C07Bitmap.new_inv_lemma bs ps Hps Hbs) as HI.
+  intros HI Hop Ha.
   destruct (C07Bitmap.range_ops_total_lemma _ a b HI Ha) as ((b1 & E1 & _) & (b2 & E2 & _) & _).
   destruct (C07Bitmap.bit_ops_total_lemma _ a HI) as ((b3 & E3 & _) & (b4 & E4 & _) & (v5 & E5) & (v6 & E6) & _).
   destruct (C07Bitmap.slice_ops_total_lemma _ (Bitmap.bs_new c) a b b HI)
     as ((b7 & E7 & _) & (v8 & E8) & _ & (v9 & E9)).
   assert (Hc : op = 50 \/ op = 51 \/ op = 52 \/ op = 53 \/ op = 54 \/ op = 55 \/ op = 56 \/ op = 57 \/ op = 58) by lia.
-  destruct Hc as [->|[->|[->|[->|[->|[->|[->|[->| ->]]]]]]]]; cbn [bitmap_cls];
+  destruct Hc as [->|[->|[->|[->|[->|[->|[->|[->| ->]]]]]]]]; cbn [bitmap_ops_cls];
     rewrite ?E1, ?E2, ?E3, ?E4, ?E5, ?E6, ?E7, ?E8, ?E9; clia.
+Qed.
+Lemma bitmap_cls_le bs ps op a b c : 50 <= op <= 58 -> 0 < ps -> bs < W64 -> a < W64 ->
+  bitmap_cls bs ps op a b c <= 1.
+Proof.
+  intros Hop Hps Hbs Ha. unfold bitmap_cls.
+  apply bitmap_ops_cls_le; [apply C07Bitmap.new_inv_lemma; assumption|exact Hop|exact Ha].
+Qed.
+(* created, then enlarged (the sum of the byte sizes fits usize), then any operation *)
+Lemma bitmap_enl_cls_le m bs ps k op a b c : 50 <= op <= 58 -> 0 < ps -> bs + k < W64 -> a < W64 ->
+  bitmap_enl_cls m bs ps k op a b c <= 1.
+Proof.
+  intros Hop Hps Hbs Ha. unfold bitmap_enl_cls.
+  destruct (C07Bitmap.new_enlarge_inv_lemma m bs ps k Hps Hbs) as (b' & E & HI & _). rewrite E.
+  apply bitmap_ops_cls_le; assumption.
 Qed.
 
 (* ------------------------------------------------------------------ checked_align_up *)
@@ -239,7 +253,7 @@ Qed.
 
 (* ------------------------------------------------------------------ assembly *)
 Lemma op_ok_tgt tgt op : op_ok tgt op = true ->
-  tgt = 0 \/ tgt = 1 \/ tgt = 2 \/ tgt = 3 \/ tgt = 4 \/ tgt = 5 \/ tgt = 6.
+  tgt = 0 \/ tgt = 1 \/ tgt = 2 \/ tgt = 3 \/ tgt = 4 \/ tgt = 5 \/ tgt = 6 \/ tgt = 7.
 Proof.
   unfold op_ok. destruct tgt as [|p]; [auto|].
   do 3 (try destruct p as [p|p|]); intros H; try discriminate; auto 10.
@@ -295,7 +309,7 @@ Proof.
   clear Es W. pose proof Proofs.C01.W64_gt_ISZ as HIW.
   destruct c as [m tgt par op ty a b cc x]. cbn [q_mode q_tgt q_par q_op q_ty q_a q_b q_c q_x] in *.
   unfold wf_tgt in W5. cbn [q_tgt q_par] in W5.
-  destruct Ht as [->|[->|[->|[->|[->|[->| ->]]]]]]; unfold op_ok in H.
+  destruct Ht as [->|[->|[->|[->|[->|[->|[->| ->]]]]]]]; unfold op_ok in H.
   - (* real slice *)
     destruct par as [|pre [|n [|z par]]]; try discriminate. b2p W5. b2p H. destruct W5 as [Hpre Hn].
     set (c := {| q_mode := m; q_tgt := 0; q_par := [pre; n]; q_op := op; q_ty := ty; q_a := a; q_b := b; q_c := cc; q_x := x |}).
@@ -339,4 +353,7 @@ Proof.
       { unfold documented, OP_ARR_REF_AT, OP_ARR_LOAD, OP_ARR_STORE, OP_ALIGN_UP. cbn [q_op q_b q_c]. closed_eqb. cbn [orb].
         rewrite P. reflexivity. }
       destruct (Address.a_checked_align_up m a b) as [r| |]; cbn [cls_out]; [destruct r; cbv [cls_opt]; auto| |]; auto.
+  - (* bitmap created, then enlarged *)
+    destruct par as [|bs [|ps [|k [|z par]]]]; try discriminate. b2p W5. b2p H.
+    apply ok_le1, bitmap_enl_cls_le; lia.
 Qed.
